@@ -13,6 +13,7 @@ import Lattigo.Model.RLWE
            sk: a= e0= skq= skp=     pk: u= e0= e1= pk0q= pk0p= pk1q= pk1p=
                                                    -> ok lvl= ntt= mont= meta= ct=  | err | panic
     dec    lc= lpt= ntt= mont= meta= ct= skq= skp= -> ok lvl= ntt= mont= meta= pt=  | panic
+    accept be2= bs2=                               -> accepted | rejected   (distribution bounds vs Q[0], fix C03-10)
 -/
 namespace Driver.C03
 open Driver Lattigo Lattigo.RLWE
@@ -129,6 +130,13 @@ def handleDec (h : Hdr) (toks : List String) : Option String := do
   | .ok (l, r) =>
     some s!"ok lvl={l} ntt={b2s r.md.isNTT} mont={b2s r.md.isMont} meta={r.md.pt} pt={showMat r.value.p.c}"
 
+/-- `accept be2= bs2=`: does `NewParameters` accept distributions with these (doubled, floored) bounds on the
+    chain `q`, `p` of the header? -/
+def handleAccept (h : Hdr) (toks : List String) : Option String := do
+  let be2 ← getNat toks "be2"
+  let bs2 ← getNat toks "bs2"
+  some (if RQ.acceptsBounds (h.q.headD 0) (!h.p.isEmpty) be2 bs2 then "accepted" else "rejected")
+
 def handle (toks : List String) : String :=
   match toks with
   | op :: rest =>
@@ -140,6 +148,7 @@ def handle (toks : List String) : String :=
         | "genpk" => handleGenPk h rest
         | "enc" => handleEnc h rest
         | "dec" => handleDec h rest
+        | "accept" => handleAccept h rest
         | _ => none
       r.getD badOp
   | _ => badOp
